@@ -113,6 +113,8 @@ def make_jobs(tier):
         for ts, main in (([T(W, 1)], True), ([T(W, 1)], False), ([T(R, 0)], True),
                          ([T(W, 1), T(R, 0)], True), ([T(R, 0), T(W, 1)], False)):
             plan.append(("B", _cfg(ts, main, None, 3), ALPHA_FULL, True))
+            # ... and with a router that answers the GOODBYE caused by stop() with a transport loss
+            plan.append(("B", dict(_cfg(ts, main, None, 3), goodbye="drop"), ALPHA_FULL, True))
     else:
         deep5 = singles + pairs((W, R), [(0, 0), (0, 1), (1, 0), (1, 1)]) + \
             pairs((R, W), [(0, 1)]) + unlimited[:1] + triples([(1, 0, 2)])
@@ -142,6 +144,7 @@ def make_jobs(tier):
         for ts, main in (([T(W, 1)], True), ([T(R, 0)], True), ([T(W, 1), T(R, 0)], True),
                          ([T(R, 0), T(W, 1)], False)):
             plan.append(("B", _cfg(ts, main, None, 4), ALPHA_FULL, True))
+            plan.append(("B", dict(_cfg(ts, main, None, 3), goodbye="drop"), ALPHA_FULL, True))
         for ts, main in (([T(W, 1)], False), ([T(R, 0)], False), ([T(W, 1), T(R, 0)], False),
                          ([T(R, 0), T(W, 1)], True), ([T(W, 0)], True), ([T(W, 0)], False),
                          ([T(R, 1)], True), ([T(R, 1)], False)):
